@@ -120,6 +120,8 @@ def build_array(col, n):
             cindex = pd.Index(np.array(cats, dtype="float64"))
         elif col["labels"] == "int":
             cindex = pd.Index(np.array(cats, dtype="int64"))
+        elif col["labels"] == "bool":
+            cindex = pd.Index(np.array(cats, dtype="bool"))
         else:
             cindex = pd.Index(np.array(cats, dtype=object), dtype=object)
         return pd.Categorical.from_codes(codes, categories=cindex, ordered=bool(col.get("ordered")))
@@ -179,6 +181,8 @@ def canon_label(lk, v):
         return str(v)
     if lk == "int":
         return int(v)
+    if lk == "bool":
+        return bool(v)
     f = float(v)
     return MISSING if f != f else f.hex()
 
